@@ -107,7 +107,7 @@ static mjModel* make_model(unsigned long long seed, unsigned feat, int nb, int i
 static void base_state(const mjModel* m, mjData* d, unsigned long long seed) {
   mjg_rng r = {seed * 31 + 7}; mjg_random_state(m, d, &r, 1.0);
   for (int k = 0; k < 2; k++) mj_step(m, d);
-  mj_forward(m, d); mj_inverse(m, d);
+  mj_inverse(m, d); mj_forward(m, d);   // forward last: the arena then holds what the forward stages expect (dual arrays)
   mjg_rng r2 = {seed * 131 + 5};
   for (int i = 0; i < m->nv; i++) d->qvel[i] += 0.01 * mjg_range(&r2, -1, 1);
   for (int i = 0; i < m->nu; i++) d->ctrl[i] = mjg_range(&r2, -1, 1);
